@@ -121,12 +121,15 @@ where
     }
 }
 
-/// Create an AluAir with the appropriate constructor based on TRACE_D.
+/// Create the symbolic AluAir for `TRACE_D`, mirroring the native `verify_all_tables`.
 ///
-/// For D=1 (base field), uses `new_with_preprocessed` with zeroed lane prep.
-/// For D=5 with `alu_quintic_trinomial`, uses `new_quintic_trinomial_with_preprocessed`.
-/// Otherwise for D>1, uses `new_binomial_with_preprocessed` with `W` from `EF`.
-/// `horner_packed_steps` must match `BatchStarkProof.table_packing.horner_packed_steps` from the proof.
+/// For D=1 (base field) the reduction is `Base`, for D=5 with `alu_quintic_trinomial` it is the
+/// quintic trinomial, and otherwise the binomial reduction with `W` from `EF`.
+/// `horner_packed_steps` must match `BatchStarkProof.table_packing.horner_packed_steps` from the
+/// proof (at least 2, as enforced by `BatchStarkProof::validate`).
+///
+/// No preprocessed data is attached: verification only evaluates the AIR symbolically, and
+/// `num_ops` is a prover-supplied count that must not size an allocation.
 fn create_alu_air<F, EF, const TRACE_D: usize>(
     num_ops: usize,
     lanes: usize,
@@ -137,24 +140,14 @@ where
     F: Field + PrimeCharacteristicRing + Copy,
     EF: ExtensionField<F> + ExtractBinomialW<F>,
 {
-    let preprocessed = if num_ops == 0 {
-        Vec::new()
-    } else {
-        vec![F::ZERO; num_ops * AluAir::<F, TRACE_D>::preprocessed_lane_width()]
-    };
     let reduction = AluExtMulKind::resolve(
         TRACE_D,
         EF::extract_w(),
         TRACE_D == 5 && alu_quintic_trinomial,
     )
     .expect("extension field must provide binomial W for ALU AIR");
-    AluAir::<F, TRACE_D>::from_reduction_with_preprocessed(
-        num_ops,
-        lanes,
-        reduction,
-        preprocessed,
-        horner_packed_steps,
-    )
+    AluAir::<F, TRACE_D>::from_reduction(num_ops, lanes, reduction)
+        .with_horner_pack_k(horner_packed_steps)
 }
 
 /// Build and attach a recursive verifier circuit for a circuit-prover [`BatchStarkProof`].
